@@ -248,18 +248,38 @@ func fixNumbers(v interface{}) interface{} {
 // checkString asserts that String() is the JSON of the data in want, when the
 // statement determines it: the data can be unpacked, JSON can express it and
 // the top level is a dictionary only.
-func checkString(fv *flag.FlagValue, want view, r *runlog.R) error {
+// stop is set when the data turned out not to be repeatable under VarExp: String()
+// may then have recorded an unpack error in the collector, so the case ends there.
+func checkString(fv *flag.FlagValue, want view, varexp bool, opts []ucfg.Option, r *runlog.R) (stop bool, _ error) {
 	switch {
 	case want.err != nil:
 		r.Class("string:skipped (data cannot be unpacked)")
-		return nil
+		return false, nil
 	case hasNonFinite(want.data):
 		r.Class("string:skipped (NaN/Inf)")
-		return nil
+		return false, nil
 	case topListPart(want.data):
 		r.Class("string:skipped (top-level list part)")
-		return nil
+		return false, nil
 	}
+	err := stringIsJSONOf(fv, want)
+	if err != nil && varexp && !isPanic(err) {
+		// see repeatable: re-read both sides before blaming String()
+		for i := 0; i < 8; i++ {
+			again := viewOf(fv.Config(), opts)
+			if again.err != nil || hasNonFinite(again.data) || topListPart(again.data) || stringIsJSONOf(fv, again) == nil {
+				r.Class("varexp: unpacking is not repeatable, String() not asserted")
+				return true, nil
+			}
+		}
+	}
+	if err == nil {
+		r.Class("string:checked")
+	}
+	return false, err
+}
+
+func stringIsJSONOf(fv *flag.FlagValue, want view) error {
 	var s string
 	if err := uc.Safe("String", func() error { s = fv.String(); return nil }); err != nil {
 		return err
@@ -273,8 +293,7 @@ func checkString(fv *flag.FlagValue, want view, r *runlog.R) error {
 	// which is not the exact integer)
 	wj, err := json.Marshal(want.data)
 	if err != nil {
-		r.Class("string:skipped (data has no JSON form)")
-		return nil
+		return nil // the data has no JSON form
 	}
 	wantData, err := decodeJSON(string(wj))
 	if err != nil {
@@ -283,7 +302,6 @@ func checkString(fv *flag.FlagValue, want view, r *runlog.R) error {
 	if !canon.EqualSplit(got, wantData) {
 		return fmt.Errorf("String() differs from the data:\n got  %s\n want %s (%s)", s, wj, want)
 	}
-	r.Class("string:checked")
 	return nil
 }
 
@@ -595,8 +613,13 @@ args:
 		if want.err != nil {
 			classes = append(classes, "data cannot be unpacked (both)")
 		}
-		if err := checkString(fv, want, r); err != nil {
+		stop, err := checkString(fv, want, c.Opts.VarExp, opts, r)
+		if err != nil {
 			return fmt.Errorf("after arg %d %q: %v", i, arg, err)
+		}
+		if stop {
+			known = false
+			break args
 		}
 		// String() produced the JSON or was not called: no error may have appeared
 		if err := fv.Error(); err != nil {
@@ -1102,8 +1125,12 @@ func runFiles(c FilesCase, r *runlog.R) error {
 			return fmt.Errorf("after file %d %q the flag's config differs from merging the loaded files (%s):\n got  %s\n want %s",
 				i, f.Name, c.Opts.Policy, gotV, wantV)
 		}
-		if err := checkString(fv, wantV, r); err != nil {
+		stop, err := checkString(fv, wantV, c.Opts.VarExp, opts, r)
+		if err != nil {
 			return fmt.Errorf("after file %d %q: %v", i, f.Name, err)
+		}
+		if stop {
+			break
 		}
 		if err := fv.Error(); err != nil {
 			return fmt.Errorf("after file %d %q and String(): Error() = %v although no file failed", i, f.Name, err)
